@@ -25,6 +25,7 @@ RULE = ("random sequences rich / poor in S,T,Y (none, all, last residue S/T/Y, .
 RULE += ("; added after the mutation rounds: length 6-9 S/T/Y-rich sequences; 130 ignored positions on one object before the ordinary operations; the first cases of every shard are judged again at its end")
 EXHAUSTIVE = {"quick": False, "thorough": False}
 ASSUMPTIONS = [
+    "warning filters that escalate warnings to errors are not part of the driven environment (a library may legitimately warn)",
     "positions are 1-based; 'ignored' means no exception and no change of the list",
     "binary counting order: itertools.product('01') over the sites in first-set order, first-set site most significant",
     "derived values agree with fresh objects to 1e-9 relative (same code path, normally bitwise)",
